@@ -46,6 +46,8 @@ TRUSTED = [
 OVR = 'F-C-OVR-CAP'
 PTR = 'F-C-PTR-PAST-END'
 CPTR = 'F-CPP-PTR-PAST-END'
+OVA = 'F-C-OVR-ASSERT'
+HDR = 'F-CPP-HDR-WRAP32'
 
 # fixed types that make the C++ containers / the union emulation do real work (heap-owning alternatives, nested vectors)
 C04_FILES = {
@@ -257,6 +259,24 @@ def run_probes(chk: core.Check, work: str, failures: typing.List[dict], stats: d
             failures.append({'kind': 'probe', 'what': 'memory-unsafe access under the documented capacity override (model: '
                              'c04_des_in_bounds_override_refuted / c04_ser_in_bounds_override_refuted / c04_too_small_writes_without_check_refuted)',
                              'reproduced': repro, 'files': c04_probe.FILES, 'found_input': True})
+    # --- F-C-OVR-ASSERT: both options + reduced capacities: valid calls must succeed, too small buffers must be refused, nothing may abort
+    aborted = []
+    for args, want in ((['ser_b', '2', '3'], '0'), (['ser_s', '2', '4'], '0'), (['ser_b', '2', '8'], '0'), (['ser_b', '2', '2'], '-3'),
+                       (['ser_b', '5', '8'], '-10'), (['des_b', '02010203040500'], '0')):
+        r = call('ovr_as', args)
+        stats['probe_runs'] = stats.get('probe_runs', 0) + 1
+        if 'Assertion' in r['report']:
+            aborted.append('%s -> %s' % (' '.join(args), r['report'][-110:]))
+        elif r['report'] or r['rc'] != 0 or r['kv'].get('rc') != want:
+            failures.append({'kind': 'probe', 'what': 'override + asserts + reduced capacity: wrong outcome', 'args': args, 'expected_rc': want, 'got': r,
+                             'files': c04_probe.FILES})
+    if aborted:
+        if chk.is_known(OVA):
+            chk.report_known(OVA, aborted[0])
+            stats['known_finding_instances'] = stats.get('known_finding_instances', 0) + len(aborted)
+        else:
+            failures.append({'kind': 'probe', 'what': 'a valid serialization aborts in NUNAVUT_ASSERT with the capacity override and assertions enabled '
+                             '(model: c04_asserts_option / c04_override_assert_refuted)', 'reproduced': aborted, 'files': c04_probe.FILES, 'found_input': True})
     # --- F-C-PTR-PAST-END: &buffer[offset_bits / 8U] beyond one-past-the-end
     past = []
     for cmd, hx in (('ptr', '0102'), ('ptr', '-'), ('ptrd', '0102'), ('ptr', '010203040506070809'), ('ptrd', '0102030405060708020000000a0b')):
@@ -356,6 +376,15 @@ def main(chk: core.Check, replay: typing.Optional[str] = None) -> int:
         broken.append('proof obligation: %s %s' % (res.failed_file or 'translator', res.failed_theorem or ''))
 
     failures: typing.List[dict] = []
+    hdr_mul = any("'cpp_hdr_check_nomul': False" in m for m in res.translator_msgs)
+    if hdr_mul:
+        h, size_bits, W = 0x20000001, 16, 32
+        accepted = not (((8 * h) % (1 << W)) > size_bits)          # the scanned multiplication form in W-bit arithmetic
+        if accepted and chk.is_known(HDR):      # finding is `fixed`: is_known is False, so a reproduction is a VIOLATION below
+            chk.report_known(HDR, 'scanned test `(h * 8U) > size()`: header 0x20000001 before 2 bytes is accepted in 32-bit arithmetic')
+        elif accepted:
+            failures.append({'kind': 'probe', 'what': 'C++ delimiter header test wraps on a 32-bit size_t (model: c04_cpp_hdr_mul_w32_refuted)',
+                             'reproduced': ['header 0x20000001, 2 bytes follow, W = 32: accepted'], 'found_input': True})
     stats: typing.Dict[str, typing.Any] = {'builds': [], 'responses': {}, 'strata': {}, 'crashes': 0, 'prior_groups_compared': 0,
                                            'rejected_by_target': 0, 'wall': {}}
     distinct = set()
@@ -397,7 +426,7 @@ def main(chk: core.Check, replay: typing.Optional[str] = None) -> int:
             stats['cases'] = stats.get('cases', 0) + len(cases)
             stats['wall']['prepare_r%d' % rnd] = round(time.time() - t0, 1)
             t0 = time.time()
-            ovr_tgt = c04_probe.OvrCTarget({'target_endianness': 'little', 'sanitize': True})
+            ovr_tgt = c04_probe.OvrCTarget({'target_endianness': 'little', 'sanitize': True, 'enable_serialization_asserts': True})
             with concurrent.futures.ThreadPoolExecutor(max_workers=1) as ovx:
                 ovr_job = ovx.submit(ovr_tgt.build, prep.ns_dirs, prep.db, os.path.join(rwork, 'build-c-override-on'), core.REPO)
                 campaign.build_targets(prep, matrix(chk.tier), core.REPO, max_workers=5)
